@@ -567,6 +567,13 @@ def emplace_units(tier, seed):
                 if fl == "casan" and std == "c++20":
                     continue  # clang 14 cannot compile libstdc++ 12's <ranges> as used by memory.hpp (a toolchain limitation, not the library's)
                 units.append(Unit("emplace", None, None, fl, {"seed": seed}, 100000, batch=100000, std=std, extra_defs=("VF_GROUP %d" % g,), label="emplace|group%d|%s|%s" % (g, std, fl)))
+    # the grid has two fixed parameter lists; what emplace_back stores must not depend on the list around the span either (a span
+    # that starts misaligned behind a narrow count, followed by a parameter that relies on the span's trailing alignment; empty,
+    # short and long sources): layout units whose first fill is owned by C15 (contiguous sources: rvalue, const lvalue, wider type)
+    for fl in flavours:
+        a = {"seed": seed, "max-cap": 6 if tier == "quick" else 12, "max-span": 5 if tier == "quick" else 11, "focus": "C15"}
+        n_cases = len(LAYOUT_C15) * (40 if tier == "quick" else 200)
+        units.append(Unit("layout", ";".join(LAYOUT_C15), None, fl, a, n_cases if fl != "casan" else n_cases // 3, batch=len(LAYOUT_C15) * 5, label="layout|c15|%s" % fl))
     return units
 
 
@@ -656,6 +663,8 @@ LAYOUT_CORE = [
     # spans of values whose size is no power of two between strongly aligned neighbours
     "P:Amp8,F:Amp8@16,P:u8", "C:u32,V:bptr", "P:f64@8,F:B12@8,P:f64@8", "C:u64@8,V:B12", "P:u8,C:u32,V:B24@16,P:u32@16", "F:B20@8,C:u16,V:B6@8,P:u64@8", "C:u64@8,V:B12@8",
 ]
+LAYOUT_C15 = ["C:u8,V:u32@4,F:u32@4", "C:u8,V:u64@8,P:u64@8", "P:u8,F:u16@2,P:u16@2", "C:u8,V:f32@4,C:u32@4,V:u16", "C:u16,V:f64@8,P:f64", "P:u8,F:u32@4,F:u32@4", "C:u8,V:u32,P:u32", "P:u8,F:u64,P:u64",
+              "C:u8,V:B12@4,F:u32@4", "P:u16,F:B6@2,F:u16@2,C:u8,V:u64@8,P:u64@8"]
 LAYOUT_BIG = ["C:u32,V:char,P:f64@512", "P:u8,F:char,P:u32@1024", "C:u16,V:u8,F:u16@512,P:u8", "F:u64@8,P:u32", "P:u16,F:char", "F:B24,F:u16@4", "C:u32,V:u64@8,P:u8", "P:u8,F:B12@512,F:u8,C:u32,V:u16@1024"]
 
 
